@@ -945,7 +945,13 @@ def ev_none(t, y):
     return y[0] * y[0] + 40.0
 
 
-EVENTS = {"q1": ev_q1, "p2": ev_p2, "never": ev_none}
+def ev_clock(t, y):
+    # positive at the start, crosses DOWN near t = 0.3 and UP near t = 0.94: with direction = +1 the admissible crossing is not the
+    # first sign change (the drivers must carry the previous event value from step to step)
+    return math.cos(5.0 * t) + 0.1 * y[0]
+
+
+EVENTS = {"q1": ev_q1, "p2": ev_p2, "never": ev_none, "clock": ev_clock}
 ROUND = 1e-9     # two executions of the same algorithm that differ only by re-association of float operations
 
 
@@ -959,12 +965,16 @@ def configs(ctx):
         for ev, dr in (("q1", 0), ("q1", 1), ("p2", -1), ("never", 0)):
             out.append(("fixed", p, {}, "asc", ev, dr))
         out.append(("fixed", p, {}, "desc", "q1", 0))
+        # non-uniform grids (the step is a property of each interval) and a crossing that is not the first sign change
+        out.append(("fixed", p, {}, "uneven", None, 0))
+        out.append(("fixed", p, {}, "uneven", "q1", 0))
+        out.append(("fixed", p, {}, "asc", "clock", 1))
     for p in (5, 8):
         for tol in tols:
             kw = {"rtol": tol, "atol": tol}
             out.append(("adaptive", p, kw, "asc", None, 0))
             out.append(("adaptive", p, kw, "uneven", None, 0))
-            for ev, dr in (("q1", 0), ("p2", -1), ("q1", -1), ("never", 0)):
+            for ev, dr in (("q1", 0), ("p2", -1), ("q1", -1), ("never", 0), ("clock", 1)):
                 out.append(("adaptive", p, kw, "asc", ev, dr))
         out.append(("adaptive", p, {"rtol": 1e-8, "atol": 1e-10, "max_step": 0.05}, "asc", None, 0))
         # options that must not be mixed up when they are handed to the twin (rtol/atol far apart, no step cap)
